@@ -9,6 +9,11 @@ CORR, PROPCHK = 'C02c_corr', 'C02c_prop'
 
 
 def encode(case, obs):
+    if case.get('obs_only') and any(ev['ev'].startswith('sp') for ev in obs.get('trace') or []):
+        # released savepoints (observation-only): the marks and the snapshots taken at them are dropped; a released
+        # savepoint changes nothing in the tables
+        keep = [i for i, ev in enumerate(obs['trace']) if not ev['ev'].startswith('sp')]
+        obs = dict(obs, trace=[obs['trace'][i] for i in keep], snaps=[obs['snaps'][i] for i in keep])
     return '(%s %s)' % ('C02_O' if case.get('obs_only') else 'C02_H', B.encode(case, obs))
 
 
@@ -66,11 +71,30 @@ def gen_cases(rng, n, tier):
                 base.append(['set', 3, 1, {'a': rnd}] if rnd else ['add', 3, 1, {'a': 0}])
             base += [['commit'], ['vswitch', True], ['set', 0, rng.choice([1, 2]), {'a': 11 + 3 * rnd}], ['commit']]
         cases.append(dict(cfg=dict(shape='blog', strategy=rng.choice(['validity', 'subquery']), twin=False), prog=base, obs_only=True))
+    # a savepoint released inside the transaction (no rollback anywhere): the transactions before and after it get
+    # their one record each, whether or not anything is flushed between the release and the commit
+    for i in range(max(8, n // 40)):
+        base = [['add', 0, 1, {'a': 1}], ['add', 0, 2, {'a': 1}], ['commit']]
+        for rnd in range(rng.randint(2, 3)):
+            base += [['set', 0, rng.choice([1, 2]), {'a': 10 + 3 * rnd}], ['flush'], ['sp_begin']]
+            if rng.random() < 0.6:
+                base += [['set', 0, rng.choice([1, 2]), {'a': 11 + 3 * rnd}]]
+                if rng.random() < 0.5:
+                    base.append(['flush'])
+            base.append(['sp_release'])
+            if rng.random() < 0.3:
+                base += [['set', 0, 1, {'b': rnd}], ['flush']]
+            base.append(['commit'])
+        cases.append(dict(cfg=dict(shape='blog', strategy=rng.choice(['validity', 'subquery']), twin=False,
+                                   changes=rng.random() < 0.5), prog=base, obs_only=True))
     return cases
 
 
 def corpus():
     return [
+        dict(cfg=dict(shape='blog', strategy='validity', twin=False), obs_only=True,
+             prog=[['add', 0, 1, {'a': 1}], ['commit'], ['set', 0, 1, {'a': 2}], ['flush'], ['sp_begin'], ['sp_release'], ['commit'],
+                   ['set', 0, 1, {'a': 3}], ['add', 0, 2, {'a': 1}], ['commit'], ['set', 0, 2, {'a': 3}], ['commit']]),
         dict(cfg=dict(shape='blog', strategy='validity', excl_notes=True),
              prog=[['add', 0, 1, {'a': 1}], ['add', 3, 1, {'a': 0}], ['commit'], ['noteto', 1, 1], ['commit']]),
         dict(cfg=dict(shape='blog', strategy='validity', changes=True),
